@@ -204,6 +204,12 @@ pub fn layout_probes(l: &imgck::Layout, stats: &mut Stats) {
     if !l.difat_sectors.is_empty() {
         stats.probe("difat_sector");
     }
+    if l.difat_sectors.len() >= 2 {
+        stats.probe("difat_sectors>=2");
+    }
+    if l.difat_sectors.len() >= 3 {
+        stats.probe("difat_sectors>=3");
+    }
     if l.dir_sectors.len() >= 2 {
         stats.probe("dir_sectors>=2");
     }
